@@ -55,7 +55,7 @@ def LineComp.get (m : LineComp R) (isFault : Bool) (pd : PlaneDist R) (n : Nat) 
       | some i => do
         let c ← idx topF i
         let s ← idx bottomF i
-        let v := (c - s) * ((1 : R) - tanh ((10 : R) * (d - side / (2 : R)) / side)) / (2 : R)
+        let v := s + (c - s) * ((1 : R) - tanh ((10 : R) * (d - side / (2 : R)) / side)) / (2 : R)
         return applyOp op old v
       | none => if op == .replace then .ok 0.0 else .ok old
     else
